@@ -284,7 +284,7 @@ func entryRule(ctx *Ctx, r *Result, rule string, t *ValidatorTable) bool {
 		n++
 		empty := false
 		for _, a := range pa.Atoms {
-			if t.tag(a.T) == "bin:==(len:builtin.len(param:"+t.List+"),0)" && a.Pos {
+			if g := t.tag(a.T); (g == "bin:==(len:builtin.len(param:"+t.List+"),0)" || g == "bin:==(param:"+t.List+",nil)") && a.Pos {
 				empty = true
 			}
 		}
